@@ -1,6 +1,6 @@
 #!/bin/bash
 # MANIFEST.setup_cmd: build the harness (plain and -race) from files on disk only; warms the build cache.
 set -e
-cd /verif
+cd "$(dirname "$(readlink -f "$0")")"
 ./check build
 echo "setup ok"
